@@ -317,6 +317,9 @@ def c113(ctx):
             p = P.reach(f, P.after(f, h), [h], avoid=set(pos) | set(P.error_points(f)))
             ctx.check(R, f, "every-child", p is None and bool(pos), "every child is positioned with %s" % m, "a child can be left unpositioned by %s" % m, pt=h, path=p)
         ctx.order_chain(R, f, [("position every child", heads), ("heapify", hp)])
+        # heapify orders the children with self.comparator: the direction must be set before the heap is built (built under
+        # the previous direction and relabelled afterwards, the root is the wrong extreme until the next direction switch)
+        ctx.order_chain(R, f, [("comparator = %s" % d, cw), ("heapify", hp)])
 
 
 def c114(ctx):
